@@ -168,7 +168,7 @@ def flexValidate (d : Dict) (l : LenTy) (os : Nat) : Nat → Nat → Slice → R
         if next = 0 then .ok ()
         else
           let last := next = l.max
-          if os > next then .err ⟨.invalidData, pos⟩
+          if next ≠ l.max ∧ os > next then .err ⟨.invalidData, pos⟩
           else if os > data.len || (!last && next > data.len) then .err ⟨.insufficientSize, pos + os⟩
           else if last then
             match data.splitAt os with
